@@ -476,8 +476,12 @@ func (bcR *BlockchainReactor) processBlock() error {
 	// first.Hash() doesn't verify the tx contents, so MakePartSet() is
 	// currently necessary.
 	err = bcR.state.Validators.VerifyCommitLight(chainID, firstID, first.Height, second.LastCommit)
+	if err == nil {
+		// validate the block before we persist it
+		err = bcR.blockExec.ValidateBlock(bcR.state, first)
+	}
 	if err != nil {
-		bcR.Logger.Error("error during commit verification", "err", err,
+		bcR.Logger.Error("error during block verification", "err", err,
 			"first", first.Height, "second", second.Height)
 		return errBlockVerificationFailure
 	}
